@@ -130,4 +130,29 @@ def loadSeq (t : BfType) (w o : Nat) : List Line :=
 def assignSeq (t : BfType) (w o : Nat) : List Line :=
   bfAssignLines w o t.implUnsigned t.implBool [loadIntLine t.implSize t.implUnsigned] (storeIntLines t.implSize)
 
+/-! ### on a byte-addressed memory
+
+The unit of a bit-field is the object of the declared type at `mem->offset`; `load` / `store` access exactly its
+`size` bytes (little endian).  Addresses are `Int` (no wrap-around). -/
+
+abbrev Mem := Int → BitVec 8
+
+/-- little-endian read of `n` bytes at `a` -/
+def readLE (m : Mem) : Int → (n : Nat) → BitVec (8 * n)
+  | _, 0 => 0#0
+  | a, n + 1 => (readLE m (a + 1) n ++ m a).cast (by omega)
+
+/-- little-endian write of `n` bytes at `a` -/
+def writeLE (m : Mem) (a : Int) (n : Nat) (v : BitVec (8 * n)) : Mem :=
+  fun x => if a ≤ x ∧ x < a + n then v.extractLsb' (8 * (x - a).toNat) 8 else m x
+
+/-- `s.f = v` on a byte-addressed memory: the unit is the `size` bytes at `addr` -/
+def bfAssignMem (t : BfType) (w o : Nat) (m : Mem) (addr : Int) (v : BitVec 64) : Mem × BitVec 64 :=
+  let r := bfAssignT t w o (readLE m addr t.usize.bytes) v
+  (writeLE m addr t.usize.bytes r.unit, r.rax)
+
+/-- reading `s.f` from memory -/
+def bfLoadMem (t : BfType) (w o : Nat) (m : Mem) (addr : Int) : BitVec 64 :=
+  bfLoadT t w o (readLE m addr t.usize.bytes)
+
 end ChibiVerif.BitField
